@@ -388,6 +388,9 @@ func runMapProgram(e *mapEnv, nOps, mode, valProf, opProf int) {
 				w.L("OBS err:%s", hx.ErrKind(err))
 				if hx.ErrKind(err) == "CollisionLimit:Fatal" {
 					e.st.Hit("collision-limit-refused")
+					if d := hx.ErrNames(err, "CollisionLimit", e.climit); d != "" {
+						e.violation("C18", fmt.Sprintf("insert of %v refused with the collision limit: %s", k, d))
+					}
 					if snapBefore != "" && e.snap() != snapBefore {
 						e.violation("C18", fmt.Sprintf("insert of %v refused with the collision limit changed the map or the pending write set", k))
 					}
@@ -433,6 +436,8 @@ func runMapProgram(e *mapEnv, nOps, mode, valProf, opProf int) {
 				w.L("OBS err:%s", hx.ErrKind(err))
 				if present || hx.ErrKind(err) != "KeyNotFound:User" {
 					e.violation("C02", fmt.Sprintf("remove(%v) failed with %s (present=%v)", k, hx.ErrKind(err), present))
+				} else if d := hx.ErrNames(err, "KeyNotFound", k); d != "" {
+					e.violation("C18", fmt.Sprintf("remove of the absent key %v: %s", k, d))
 				}
 				if snapBefore != "" && e.snap() != snapBefore {
 					e.violation("C18", fmt.Sprintf("remove of the absent key %v changed the map or the pending write set", k))
@@ -507,6 +512,8 @@ func runMapProgram(e *mapEnv, nOps, mode, valProf, opProf int) {
 					w.L("OBS err:%s", hx.ErrKind(err))
 					if present || hx.ErrKind(err) != "KeyNotFound:User" {
 						e.violation("C02", fmt.Sprintf("get(%v) failed with %s (present=%v)", k, hx.ErrKind(err), present))
+					} else if d := hx.ErrNames(err, "KeyNotFound", k); d != "" {
+						e.violation("C18", fmt.Sprintf("get of the absent key %v: %s", k, d))
 					}
 				} else {
 					w.L("OBS ok:%s", renderValue(v))
@@ -551,6 +558,8 @@ func runMapProgram(e *mapEnv, nOps, mode, valProf, opProf int) {
 			}
 			// C09: one live map, everything handed back has been disposed of: exactly its slabs remain
 			e.health()
+			// C18: values whose large-value slab is absent are reported, not dereferenced (dangling.go)
+			e.danglingProbe()
 		}
 	}
 	e.st.Ops += nOps
